@@ -5,13 +5,23 @@ import math
 from . import tlc
 
 
-def build_circuit(gs, nq, enhanced=False):
+def build_circuit(gs, nq, enhanced=False, share=False):
+    """share=True: ONE gate object per kind of gate is appended wherever that kind occurs (x = gates.X() made once and
+    appended many times): applied gates on the same wires then compare equal"""
     from qlasskit import QCircuit
     from qlasskit.qcircuit import QCircuitEnhanced, gates as G
 
     qc = (QCircuitEnhanced if enhanced else QCircuit)(nq)
+    objs = {}
     for g in gs:
-        apply_gate(qc, g)
+        if not share:
+            apply_gate(qc, g)
+            continue
+        tmp = QCircuit(nq)
+        apply_gate(tmp, g)
+        go, w, p = tmp.gates[-1]
+        go = objs.setdefault((g["cls"], len(w), p), go)
+        qc.append(go, list(w), p)
     return qc
 
 
